@@ -166,8 +166,12 @@ impl<'p, 'a> Evaluator<'a, 'p> {
             // The thunks that were being evaluated must not stay "in progress":
             // a later request would see them as infinite recursion.
             for state in this.state_stack.iter() {
-                if let State::GotThunk(thunk) = state {
-                    thunk.reset_in_progress();
+                match state {
+                    State::GotThunk(thunk) => thunk.reset_in_progress(),
+                    // The assertions of these objects did not all pass: they
+                    // must run again the next time the object is used.
+                    State::ObjectAssertsEnd(object) => object.asserts_checked.set(false),
+                    _ => {}
                 }
             }
             return Err(e);
@@ -538,6 +542,7 @@ impl<'p, 'a> Evaluator<'a, 'p> {
                         }));
                     }
                 }
+                State::ObjectAssertsEnd(_) => {}
                 State::AssertMsg { assert_span } => {
                     let msg = self.string_stack.pop().unwrap();
                     return Err(self.report_error(EvalErrorKind::AssertFailed {
@@ -1647,6 +1652,8 @@ impl<'p, 'a> Evaluator<'a, 'p> {
     fn check_object_asserts(&mut self, object: &GcView<ObjectData<'p>>) {
         if !object.asserts_checked.get() {
             object.asserts_checked.set(true);
+            self.state_stack
+                .push(State::ObjectAssertsEnd(object.clone()));
             let layer_iter = object
                 .super_layers
                 .iter()
